@@ -875,6 +875,15 @@ var linkPool = []struct {
 	{"sublnk", "sub/deep", true}, {"up", "..", true}, {"self", ".", true}, {"abs.o", "/etc/hostname", false},
 }
 
+// outputs whose path leads THROUGH a directory link of the pool: what is removed (or refused) is where the path really
+// ends — `up/proj` is the project itself
+var throughPool = map[string][]string{
+	"up":     {"up/proj", "up/proj/top.o", "up/sib", "up/sib/s.txt", "up/proj/spokfile", "up/proj/up/proj", "up/proj/sub", "up/nothing"},
+	"self":   {"self/top.o", "self/spokfile", "self/self/sub", "self/self", "self/docs"},
+	"sublnk": {"sublnk/leaf.txt", "sublnk/nothing"},
+	"latest": {"latest/s.txt", "latest/keep.txt", "latest/../top.o"},
+}
+
 func (g *gen) tree() []entry {
 	var t []entry
 	p := 0.35 + 0.6*g.rng.Float64()
@@ -1054,7 +1063,17 @@ func (g *gen) c12Random() *tcase {
 				continue
 			}
 			tc.tree = append(tc.tree, entry{"l", projRel + "/" + l.name, l.target})
-			if g.chance(0.7) {
+			if th := throughPool[l.name]; len(th) > 0 && g.chance(0.5) {
+				o := th[g.rng.Intn(len(th))]
+				if g.chance(0.6) {
+					tc.stmts[ti].t.files = append(tc.stmts[ti].t.files, o)
+				} else {
+					nm := "THR" + string(rune(64+k))
+					tc.stmts = append([]stmt{{d: decl{name: nm, kind: "S", args: []string{"/S/" + projRel + "/" + o}}}}, tc.stmts...)
+					ti++
+					tc.stmts[ti].t.named = append(tc.stmts[ti].t.named, nm)
+				}
+			} else if g.chance(0.7) {
 				tc.stmts[ti].t.files = append(tc.stmts[ti].t.files, l.name)
 			} else {
 				// as a named output, by absolute path
@@ -1194,6 +1213,15 @@ func c12Singles() []*tcase {
 		tc2 := mk(task{named: []string{"OUT"}}, decl{name: "OUT", kind: "S", args: []string{"/S/" + projRel + "/" + l.name}})
 		tc2.tree = append(tc2.tree, entry{"l", projRel + "/" + l.name, l.target})
 		out = append(out, tc2)
+		// … and every path through it
+		for _, o := range throughPool[l.name] {
+			tc3 := mk(task{files: []string{o, "top.o"}})
+			tc3.tree = append(tc3.tree, entry{"l", projRel + "/" + l.name, l.target})
+			out = append(out, tc3)
+			tc4 := mk(task{named: []string{"OUT"}}, decl{name: "OUT", kind: "S", args: []string{"/S/" + projRel + "/" + o}})
+			tc4.tree = append(tc4.tree, entry{"l", projRel + "/" + l.name, l.target})
+			out = append(out, tc4)
+		}
 	}
 	return out
 }
